@@ -2,21 +2,24 @@ package main
 
 // C18: the three places that draw temporal shard boundaries.
 func init() {
-	optRepl := func(m map[string]string) map[string]string { return m }
 	cc := "trillian/ctfe/cert_checker.go"
 	ml := "client/multilog.go"
 	lf := "loglist3/logfilter.go"
 	register(genFile{name: "Temporal", imports: []string{"CTV.Basic.I64"}, units: []unit{
-		// ValidateChain: the leaf is rejected when either condition holds.
-		{"ValidateChain.rejectStart", condKernel(cc, "ValidateChain", []string{"naStart", "Before"}, "validateChainRejectStart", "(start : Option Int) (t : Int)",
-			Spec{Repl: optRepl(map[string]string{"naStart != nil": "start.isSome", "*naStart": "(start.getD 0)", "cert.NotAfter": "t"})})},
-		{"ValidateChain.rejectLimit", condKernel(cc, "ValidateChain", []string{"naLimit", "Before"}, "validateChainRejectLimit", "(limit : Option Int) (t : Int)",
-			Spec{Repl: map[string]string{"naLimit != nil": "limit.isSome", "*naLimit": "(limit.getD 0)", "cert.NotAfter": "t"}})},
-		// IndexByDate: a shard is skipped when either condition holds; the first shard not skipped is returned.
-		{"IndexByDate.skipLower", condKernel(ml, "TemporalLogClient.IndexByDate", []string{"interval.lower"}, "indexByDateSkipLower", "(lower : Option Int) (when : Int)",
-			Spec{Repl: map[string]string{"interval.lower != nil": "lower.isSome", "*interval.lower": "(lower.getD 0)", "when": "when"}})},
-		{"IndexByDate.skipUpper", condKernel(ml, "TemporalLogClient.IndexByDate", []string{"interval.upper"}, "indexByDateSkipUpper", "(upper : Option Int) (when : Int)",
-			Spec{Repl: map[string]string{"interval.upper != nil": "upper.isSome", "*interval.upper": "(upper.getD 0)", "when": "when"}})},
+		// ValidateChain: the leaf is rejected when either condition holds. Canonical form: the parameters by position, the hoisted
+		// reads (`naStart := validationOpts.notAfterStart`, `cert := chain[0]`, a hoisted `cert.NotAfter`) substituted back.
+		{"ValidateChain.rejectStart", condKernel(cc, "ValidateChain", []string{"validationOpts.notAfterStart", "Before"}, "validateChainRejectStart", "(start : Option Int) (t : Int)",
+			Spec{Canon: true, ParamNames: []string{"rawChain", "validationOpts"}, Repl: map[string]string{"validationOpts.notAfterStart != nil": "start.isSome",
+				"*validationOpts.notAfterStart": "(start.getD 0)", "chain[0].NotAfter": "t"}})},
+		{"ValidateChain.rejectLimit", condKernel(cc, "ValidateChain", []string{"validationOpts.notAfterLimit", "Before"}, "validateChainRejectLimit", "(limit : Option Int) (t : Int)",
+			Spec{Canon: true, ParamNames: []string{"rawChain", "validationOpts"}, Repl: map[string]string{"validationOpts.notAfterLimit != nil": "limit.isSome",
+				"*validationOpts.notAfterLimit": "(limit.getD 0)", "chain[0].NotAfter": "t"}})},
+		// IndexByDate: the verdict of the loop body for one shard (`return` = taken, `continue` = skipped), whatever the body's shape
+		// (two `if … { continue }`, one combined test, a helper method); the first shard taken is returned.
+		{"IndexByDate.takes", loopVerdictKernel(ml, "TemporalLogClient.IndexByDate", "tlc.intervals", "interval", "indexByDateTakes", "(lower upper : Option Int) (when : Int)", "Bool", "false",
+			Spec{Canon: true, Inline: true, Ret: "verdict", ReturnVal: "true", ContinueVal: "false", ParamNames: []string{"when"},
+				Repl: map[string]string{"interval.lower != nil": "lower.isSome", "*interval.lower": "(lower.getD 0)", "interval.upper != nil": "upper.isSome",
+					"*interval.upper": "(upper.getD 0)", "when": "when", "interval.lower == nil": "lower.isNone", "interval.upper == nil": "upper.isNone"}})},
 		{"IndexByDate.loopShape", indexByDateShape(ml)},
 		// shardInterval: refused when inverted (or empty).
 		{"shardInterval.inverted", condKernel(ml, "shardInterval", []string{"interval.lower", "interval.upper", "Before"}, "shardIntervalInverted", "(lower upper : Option Int)",
@@ -29,10 +32,12 @@ func init() {
 				Vars: map[string]string{"overall.upper": "overallUpper"},
 				Repl: map[string]string{"overall.upper == nil": "overallUpper.isNone", "interval.lower == nil": "lower.isNone",
 					"interval.lower": "(lower.getD 0)", "*overall.upper": "(overallUpper.getD 0)", "interval.upper": "upper"}})},
-		// LogList.TemporallyCompatible: a log with an interval is kept when the condition holds.
-		{"TemporallyCompatible.cond", condKernel(lf, "LogList.TemporallyCompatible", []string{"EndExclusive", "StartInclusive"}, "temporallyCompatibleCond", "(start limit t : Int)",
-			Spec{Repl: map[string]string{"cert.NotAfter": "t", "l.TemporalInterval.EndExclusive": "limit", "l.TemporalInterval.StartInclusive": "start"}})},
-		{"TemporallyCompatible.nilInterval", nilIntervalShape(lf)},
+		// LogList.TemporallyCompatible: the verdict of the inner loop body for one log (kept = appended), whatever the body's shape.
+		{"TemporallyCompatible.keeps", loopVerdictKernel(lf, "LogList.TemporallyCompatible", ".Logs", "l", "temporallyCompatibleKeeps", "(ivNone : Bool) (start limit t : Int)", "Bool", "kept_",
+			Spec{Canon: true, Inline: true, Ret: "verdict", ReturnVal: "kept_", ContinueVal: "kept_", ParamNames: []string{"cert"}, AppendEffect: map[string]string{"l": "kept_ := true"}, Prelude: "let kept_ := false\n  ",
+				Repl: map[string]string{"l.TemporalInterval == nil": "ivNone", "l.TemporalInterval != nil": "(!ivNone)", "cert.NotAfter": "t",
+					"l.TemporalInterval.EndExclusive": "limit", "l.TemporalInterval.StartInclusive": "start"}})},
+		{"TemporallyCompatible.shape", temporallyCompatibleShape(lf)},
 		// the log server's window as configured: ValidateLogConfig stores the two timestamps verbatim and refuses limit < start;
 		// setUpLogInfo hands them to the validation options unchanged.
 		{"ValidateLogConfig.windowRefused", condKernel("trillian/ctfe/config.go", "ValidateLogConfig", []string{"NotAfterLimit", "NotAfterStart", "Before"}, "validateLogConfigWindowRefused", "(start limit : Option Int)",
